@@ -31,10 +31,14 @@ type Sched struct {
 	Trace       []string
 	KeepTrace   bool
 	sig         *Sig
+	// OnRelease, if set, runs on the scheduler goroutine just before a task is released (e.g. to
+	// tell the simulated OS on whose behalf the following operations run).
+	OnRelease func(t *Task)
 }
 
 type Task struct {
 	s        *Sched
+	Actor    int // simulated process the task belongs to (set by the harness)
 	ID       int
 	Name     string
 	goid     uint64
@@ -188,11 +192,13 @@ func (s *Sched) Run() string {
 				cands = append(cands, t)
 			}
 		}
-		nTime := 0
+		// "let simulated time pass" is always a legal decision; when somebody sleeps on the clock
+		// every step size is a candidate, otherwise a single candidate whose size is drawn next
+		nTime := 1
 		if len(waiting) > 0 {
 			nTime = len(timeSteps)
 		}
-		if len(cands) == 0 && nTime == 0 {
+		if len(cands) == 0 && len(waiting) == 0 {
 			return "deadlock: no runnable task and nobody waits on time"
 		}
 		d := s.ch.Intn(len(cands) + nTime)
@@ -203,7 +209,11 @@ func (s *Sched) Run() string {
 			continue
 		}
 		if d >= len(cands) {
-			s.advance(d - len(cands))
+			if len(waiting) > 0 {
+				s.advance(d - len(cands))
+			} else {
+				s.advance(s.ch.Intn(len(timeSteps)))
+			}
 			continue
 		}
 		t := cands[d]
@@ -219,6 +229,9 @@ func (s *Sched) Run() string {
 		s.sig.Add("run", t.Name, lbl)
 		if s.KeepTrace {
 			s.Trace = append(s.Trace, fmt.Sprintf("run %s @%s", t.Name, lbl))
+		}
+		if s.OnRelease != nil {
+			s.OnRelease(t)
 		}
 		t.run <- struct{}{}
 	}
